@@ -51,22 +51,8 @@ theorem ownerSpec_iff (es : List Entry) (b : Nat) (hb : 1 ≤ b) (k v : Bytes) :
 
 /-- the weight-ordered descent reaches, for every block number 1..total, the entry whose cumulative-weight interval
     in key order contains it -/
-theorem owner_interval (t : PT) (b : Nat) (hb : 1 ≤ b) (hw : b ≤ t.weight) : t.owner b = ownerSpec t.entries b := by
-  induction t generalizing b with
-  | none => simp [PT.weight] at hw; omega
-  | value v w =>
-    simp only [PT.weight] at hw
-    simp [PT.owner, PT.entries, ownerSpec, hw]
-  | short k c ih =>
-    simp only [PT.weight] at hw
-    have : ¬ b > c.weight := by omega
-    simp only [PT.owner, PT.entries, this, if_false, ownerSpec_prepend, ih b hb hw]
-  | branch ch ih =>
-    simp only [PT.owner, PT.entries]
-    rw [pick_spec ch ih allNib b hb]
-    cases PT.pick ch allNib b with
-    | none => rfl
-    | some r => rfl
+theorem owner_interval (t : PT) (b : Nat) (hb : 1 ≤ b) (hw : b ≤ t.weight) : t.owner b = ownerSpec t.entries b :=
+  owner_eq_ownerSpec t b hb hw
 
 /-- beyond the total weight no entry owns the block -/
 theorem owner_out_of_range (t : PT) (b : Nat) (h : t.weight < b) : ownerSpec t.entries b = none := by
